@@ -55,6 +55,26 @@ def reaching_def(f, name, use_eid):
                         found = (i, node[1])
                         break
     if found is None:
+        # the use is guarded by a flag whose only non-zero store sits in one block (the result of an inlined helper:
+        # `ok = 0` on the failure paths, `ok = 1` next to the out-parameter store): that block was executed
+        from . import atoms
+        d = flow.idom(f)
+        for src, lab, cond in flow.dominating_edges(f, bid):
+            if found is not None or cond is None or lab not in ("T", "F"):
+                continue
+            tbi = atoms._const_flag_info(f, cond, lab == "T", src)
+            if tbi is None:
+                continue
+            node = ("b", tbi[0])
+            while found is None and node is not None:
+                if node[0] == "b":
+                    for i in reversed(f.blocks[node[1]].elems):
+                        if flow.is_event(f, i) and _stores_to_local(f, i, name):
+                            found = (i, node[1])
+                            break
+                nxt = d.get(node)
+                node = nxt if nxt is not None and nxt != node else None
+    if found is None:
         return None
     di, dbid = found
     # no other store to the name between the definition and the use
